@@ -18,9 +18,9 @@ import os
 import re
 import shutil
 
-from .. import core, shapes
+from .. import core, refdoc, shapes
 from ..core import Acc, Violation
-from ..driver import Server, server_on, worker_scratch
+from ..driver import Server, clear_caches, server_on, worker_scratch
 
 LEVEL = "exploration"
 
@@ -89,8 +89,9 @@ def doc_lines(s, uri_or_path):
         return None
 
 
-def check_result(s, family, method, result, uri, case, acc, extra_tags=None):
-    """Shape + range validity of one result."""
+def check_result(s, family, method, result, uri, case, acc, extra_tags=None, view=None):
+    """Shape + range validity of one result.  `view(uri)` gives the lines of the target document as the client
+    sees it (open: the synchronised text, closed: the file); default is the text the server holds."""
     tags0 = {"family": family, "method": method.split("/")[-1], **(extra_tags or {})}
     probs = shapes.VALIDATORS[method](result) if method in shapes.VALIDATORS else []
     if probs:
@@ -100,7 +101,7 @@ def check_result(s, family, method, result, uri, case, acc, extra_tags=None):
     if method == "textDocument/codeAction":
         return  # edits of code actions are offers, their ranges are checked through shape only
     for u, rng, where in shapes.collect_locations(result, uri):
-        lines = doc_lines(s, u) if u else None
+        lines = (view(u) if view else doc_lines(s, u)) if u else None
         if lines is None:
             acc.violation(Violation(family, {**tags0, "obs": "range_target_missing"}, case, "an existing document", u,
                                     what=f"{method} {where} points at {u}"))
@@ -112,7 +113,7 @@ def check_result(s, family, method, result, uri, case, acc, extra_tags=None):
                                     bad[:2], what=f"{method} {bad[0]}"))
 
 
-def request_all(s, family, path, line, col, acc, desc, methods=METHODS, extra_tags=None):
+def request_all(s, family, path, line, col, acc, desc, methods=METHODS, extra_tags=None, view=None, case_extra=None):
     from fortls.jsonrpc import path_to_uri
 
     uri = path_to_uri(path)
@@ -126,7 +127,7 @@ def request_all(s, family, path, line, col, acc, desc, methods=METHODS, extra_ta
             params = {"textDocument": params["textDocument"], "range": {"start": {"line": line, "character": 0}, "end": {"line": line + (col % 4), "character": 0}},
                       "context": {"diagnostics": []}}
         resp, other = s.request(m, params)
-        case = {"file": desc, "line": line, "character": col, "method": m}
+        case = {"file": desc, "line": line, "character": col, "method": m, **(case_extra or {})}
         acc.case(nontrivial_key=(desc, line, col, m) if resp.get("result") is not None else None,
                  outcome=(m, type(resp.get("result")).__name__, "error" in resp))
         if "error" in resp:
@@ -134,7 +135,7 @@ def request_all(s, family, path, line, col, acc, desc, methods=METHODS, extra_ta
             acc.violation(Violation(family, {"family": family, "method": m.split("/")[1], "obs": "error", "site": site, "exc": exc, **(extra_tags or {})},
                                     case, "a result or null", str(resp["error"].get("message"))[:160], what=f"{m} at {desc}:{line}:{col} -> {exc} at {site}"))
             continue
-        check_result(s, family, m, resp["result"], uri, case, acc, extra_tags)
+        check_result(s, family, m, resp["result"], uri, case, acc, extra_tags, view)
 
 
 def positions_of(lines, every_column=False):
@@ -286,6 +287,140 @@ def intrinsic_job(job, acc: Acc):
         acc.sample({"intrinsic": name, "kind": kind, "document": text})
 
 
+# --------------------------------------------------------------------- sync
+# Ranges must address the document the *client* holds: the synchronised text of an open document, the file of a
+# closed one.  Histories of didOpen / ranged didChange / didSave / didClose on two small files, then every
+# positional method at every token of both files, judged against the client's view.
+SYNC_A = ("module sm\n  implicit none\n  integer :: nn\ncontains\n  integer function sf(x)\n"
+          "    integer, intent(in) :: x\n    sf = x + nn\n  end function sf\nend module sm\n")
+SYNC_B = "program sp\n  use sm\n  implicit none\n  nn = sf(1)\nend program sp\n"
+SYNC_FILES = {"sa.f90": SYNC_A, "sb.f90": SYNC_B}
+
+
+def _find(text, needle):
+    lines = text.split("\n")
+    for i, ln in enumerate(lines):
+        c = ln.find(needle)
+        if c >= 0:
+            return i, c
+    return None
+
+
+def sync_edit(kind, text):
+    """A content change of the given kind for the current client text (None if it does not apply)."""
+    lines = text.split("\n")
+    pt = lambda l, c: {"line": l, "character": c}  # noqa: E731
+    if kind == "ins_decl":
+        at = _find(text, ":: nn") or _find(text, ":: ")
+        if at is None:
+            return None
+        p = pt(at[0], at[1] + 3)
+        return {"range": {"start": p, "end": p}, "text": "a_long_inserted_entity_name_of_forty_chars, "}
+    if kind == "ins_lines":
+        return {"range": {"start": pt(0, 0), "end": pt(0, 0)}, "text": "! one\n! two\n! three\n"}
+    if kind == "del_line":
+        if len(lines) < 3:
+            return None
+        return {"range": {"start": pt(1, 0), "end": pt(2, 0)}, "text": ""}
+    if kind == "append":
+        n = len(lines) - 1
+        return {"range": {"start": pt(n, len(lines[n])), "end": pt(n, len(lines[n]))},
+                "text": "subroutine appended_after_everything(q)\n  integer :: q\nend subroutine appended_after_everything\n"}
+    if kind == "truncate":
+        if len(lines) < 4:
+            return None
+        return {"range": {"start": pt(3, 0), "end": pt(len(lines) - 1, len(lines[-1]))}, "text": ""}
+    if kind == "full":
+        return {"text": text.replace("nn", "nn_renamed_to_something_longer")}
+    raise KeyError(kind)
+
+
+SYNC_EDITS = ("ins_decl", "ins_lines", "del_line", "append", "truncate", "full")
+SYNC_EVENTS = [("open", f) for f in SYNC_FILES] + [("close", f) for f in SYNC_FILES] + [("save", "sa.f90")] + \
+    [("edit", "sa.f90", k) for k in SYNC_EDITS] + [("edit", "sb.f90", "ins_lines")]
+
+
+def sync_histories(depth):
+    """All legal histories up to `depth` (edit/save/close need the document open; open needs it closed)."""
+    out = []
+
+    def rec(h, is_open):
+        if h:
+            out.append(tuple(h))
+        if len(h) == depth:
+            return
+        for ev in SYNC_EVENTS:
+            f = ev[1]
+            if (ev[0] == "open") == (f in is_open):
+                continue
+            nxt = (is_open | {f}) if ev[0] == "open" else (is_open - {f}) if ev[0] == "close" else is_open
+            rec(h + [ev], nxt)
+
+    rec([], frozenset())
+    return out
+
+
+def sync_job(hist, acc: Acc):
+    from fortls.jsonrpc import path_from_uri
+
+    sc = worker_scratch("c09sync")
+    sc.wipe()
+    root = os.path.join(sc.path, "ws")
+    os.makedirs(root)
+    disk = dict(SYNC_FILES)
+    for f, t in disk.items():
+        with open(os.path.join(root, f), "w") as fh:
+            fh.write(t)
+    clear_caches()
+    s = server_on(root, ["--incremental_sync"])
+    client = {}
+    applied = []
+    for ev in hist:
+        f = ev[1]
+        path = os.path.join(root, f)
+        if ev[0] == "open":
+            client[f] = disk[f]
+            out = s.open(path, client[f])
+        elif ev[0] == "close":
+            del client[f]
+            out = s.close(path)
+        elif ev[0] == "save":
+            disk[f] = client[f]
+            with open(path, "w") as fh:
+                fh.write(disk[f])
+            out = s.save(path)
+        else:
+            ch = sync_edit(ev[2], client[f])
+            if ch is None:
+                acc.count("edit_not_applicable")
+                return
+            client[f] = refdoc.apply(client[f], ch)
+            out = s.change(path, [ch])
+        applied.append(ev)
+        for o in out:
+            if "id" in o and "error" in o:
+                acc.violation(Violation("sync", {"family": "sync", "method": ev[0], "obs": "error_response"},
+                                        {"history": [list(e) for e in applied]}, None, str(o)[:200]))
+
+    def view(uri):
+        p = path_from_uri(uri) if uri.startswith("file://") else uri
+        f = os.path.basename(p)
+        if os.path.dirname(os.path.realpath(p)) != os.path.realpath(root) or f not in disk:
+            return None
+        return (client[f] if f in client else disk[f]).split("\n")
+
+    tags = {"sync": "open" if "sa.f90" in client else "closed",
+            "unsaved": bool(any(e[0] == "edit" for e in hist) and "sa.f90" not in client and disk["sa.f90"] == SYNC_A)}
+    hx = [list(e) for e in hist]
+    for f in sorted(disk):
+        path = os.path.join(root, f)
+        lines = view(path)
+        for (ln, col) in positions_of(lines):
+            request_all(s, "sync", path, ln, col, acc, f, extra_tags=tags, view=view, case_extra={"history": hx})
+    if len(acc.samples) < 1 and len(hist) >= 3:
+        acc.sample({"history": hx, "client_view_of_sa": (client.get("sa.f90") or disk["sa.f90"])[:200]})
+
+
 # --------------------------------------------------------------------- main
 def main(ctx):
     q = ctx.quick
@@ -295,6 +430,7 @@ def main(ctx):
                 "half-line / truncated variants around the mutation; intrinsics: every bundled intrinsic name under the "
                 "cursor in 5 contexts. Non-trivial = the answer is not null; distinct by (file, position, method).")
     ctx.assumptions = ["the sample sources are indexed together as one workspace (as the repository's suite does)",
+                       "sync family: ranges are checked against the text the client holds (synchronised text of an open document, the file of a closed one)",
                        "ranges are checked against the text the server holds for the target (or the file on disk)"]
     sel = files
     every = () if q else tuple(files)
@@ -305,10 +441,15 @@ def main(ctx):
     names = intrinsic_names()
     iacc = core.pmap(intrinsic_job, names, chunk=4, budget_s=600, label="C09/intrinsics")
     ctx.add_family("intrinsics", iacc, names=len(names))
+    depth = 3 if q else 4
+    hs = sync_histories(depth)
+    sacc = core.pmap(sync_job, hs, chunk=4, budget_s=900, label="C09/sync")
+    ctx.add_family("sync", sacc, histories=len(hs), depth=depth, events=len(SYNC_EVENTS))
     ctx.exhaustive = True
     ctx.coverage_extra["bounds"] = {"files": len(sel), "of": len(files), "intrinsic_names": len(names),
                                     "positions": "token start/interior/end + past line end + past EOF" if q else "every column of every line",
-                                    "mutants": "30 files, every 3rd line" if q else "all files, every line"}
+                                    "mutants": "30 files, every 3rd line" if q else "all files, every line",
+                                    "sync": f"all legal open/edit/save/close histories of depth <= {depth} over {len(SYNC_EVENTS)} events"}
 
 
 def replay(rec):
@@ -325,6 +466,11 @@ def replay(rec):
     elif fam == "mutants":
         m = re.match(r"(.*) \[(\w+) line (\d+)\]", c["file"])
         mutant_job((m.group(1), m.group(2), int(m.group(3))), acc)
+    elif fam == "sync":
+        sync_job(tuple(tuple(e) for e in c["history"]), acc)
+        return [v.to_json("C09") for v in acc.violations
+                if (v.case.get("method"), v.case.get("line"), v.case.get("character"), v.case.get("file")) ==
+                (c.get("method"), c.get("line"), c.get("character"), c.get("file"))] or None
     else:
         m = re.match(r"intrinsic (\S+) (.*)", c["file"])
         intrinsic_job((m.group(1), m.group(2)), acc)
